@@ -3,26 +3,31 @@
 From Clvm Require Export Model.Bstr.
 Open Scope N_scope.
 
-(* big-endian bytes of v in exactly n bytes (low n bytes of v) *)
+(* big-endian bytes of v in exactly n bytes (low n bytes of v). Written with land/shiftr
+   (= mod 256 / div 256, see Proofs/IntEncBasics.v) so that the extracted code is linear in the
+   size of v: atoms of tens of kilobytes are read as numbers by the arithmetic operators. *)
 Fixpoint be_bytes_acc (n : nat) (v : N) (acc : bytes) : bytes :=
-  match n with O => acc | S k => be_bytes_acc k (v / 256) (v mod 256 :: acc) end.
+  match n with O => acc | S k => be_bytes_acc k (N.shiftr v 8) (N.land v 255 :: acc) end.
 Definition be_bytes (n : nat) (v : N) : bytes := be_bytes_acc n v [].
 
 (* number of bytes needed for the unsigned value v (0 for 0) *)
 Definition nbytes_u (v : N) : nat := Nat.div (N.to_nat (N.size v) + 7) 8.
 
-Definition pow256 (n : nat) : N := N.pow 256 (N.of_nat n).
+Definition pow256 (n : nat) : N := N.shiftl 1 (8 * N.of_nat n).     (* = 256 ^ n *)
+
+(* big-endian unsigned value, linear time (= Bstr.be_value, see Proofs/IntEncBasics.v) *)
+Definition be_nat (b : bytes) : N := fold_left (fun acc x => N.shiftl acc 8 + x) b 0.
 
 (* signed value of a byte string; the empty string is 0 *)
 Definition int_of_bytes (b : bytes) : Z :=
   match b with
   | [] => 0%Z
-  | x :: _ => if 128 <=? x then (Z.of_N (be_value b) - Z.of_N (pow256 (length b)))%Z
-              else Z.of_N (be_value b)
+  | x :: _ => if 128 <=? x then (Z.of_N (be_nat b) - Z.of_N (pow256 (length b)))%Z
+              else Z.of_N (be_nat b)
   end.
 
 (* unsigned value (u64_from_bytes & co.) *)
-Definition uint_of_bytes (b : bytes) : N := be_value b.
+Definition uint_of_bytes (b : bytes) : N := be_nat b.
 
 (* the minimal two's-complement encoding *)
 Definition bytes_of_int (z : Z) : bytes :=
